@@ -45,7 +45,7 @@ for _mod, _ty, _asa, _ax, _props in (
         returns=TBool,
         ensures=(lambda asa: (lambda c, r: [r.t == asa(c._st.env["A"].t, c._st.env["B"].t)]))(_asa),  # (View.A is the solver accessor)
         axioms=_ax,
-        fuel=6,
+        fuel=5,
         properties=_props,
         note="every member of B has a subset in A (the definition of ASA)",
     )
